@@ -110,7 +110,12 @@ class Machine:
                 idx = (i for i in list(idx))
             elif kind == 4:
                 idx = iter(idx)
-            return self._new(L[a[0]][idx])
+            keep = idx.copy() if isinstance(idx, np.ndarray) else (list(idx) if isinstance(idx, list) else None)
+            got = L[a[0]][idx]
+            # the index object belongs to the caller (who may use it on the next list, of another length): it is read, not rewritten
+            if keep is not None and not (np.array_equal(idx, keep) if isinstance(idx, np.ndarray) else idx == keep):
+                return {"err": "caller-index-modified:" + type(idx).__name__}
+            return self._new(got)
         if op == "repeat":
             # (a count computed with numpy is a count)
             return self._new(L[a[0]].repeat(np.int64(a[1]) if self.use_numpy_index else a[1]))
